@@ -10,7 +10,9 @@ rm -rf $base; mkdir -p $base
 git -C /repo worktree prune
 git -C /repo worktree add --detach $base/repo HEAD >/dev/null 2>&1 || { echo "worktree failed"; exit 2; }
 git -C $base/repo apply $d/patch.diff || { echo "patch does not apply"; git -C /repo worktree remove --force $base/repo; exit 2; }
-cd /verif
+# private copy of the machinery: edits to /verif while this runs do not reach it
+rsync -a --exclude .build --exclude .git --exclude seeded --exclude design-probes /verif/ $base/verif/
+cd $base/verif
 VERIF_REPO=$base/repo VERIF_BUILD=$base/build ./check $prop --tier $tier --jobs $jobs --no-evidence > $d/check-$tier.log 2>&1; rc=$?
 echo "rc=$rc" >> $d/check-$tier.log
 # replay files written by the run belong to the seed, not to the tree
